@@ -216,15 +216,18 @@ impl SearchQuery {
     }
 
     fn slice(&self, mut ids: Vec<DbId>) -> Result<Vec<DbId>, DbError> {
-        Ok(match (self.limit, self.offset) {
-            (0, 0) => ids,
-            (0, _) => ids[self.offset as usize..].to_vec(),
-            (_, 0) => {
-                ids.truncate(self.limit as usize);
-                ids
-            }
-            (_, _) => ids[self.offset as usize..(self.offset + self.limit) as usize].to_vec(),
-        })
+        let len = ids.len() as u64;
+        let start = std::cmp::min(self.offset, len) as usize;
+        let end = if self.limit == 0 {
+            len
+        } else {
+            std::cmp::min(self.offset.saturating_add(self.limit), len)
+        } as usize;
+
+        ids.truncate(end);
+        ids.drain(..start);
+
+        Ok(ids)
     }
 
     pub(crate) fn new() -> Self {
